@@ -342,14 +342,19 @@ func ruleOffsetPlumbing(w *core.World, r *core.Report) {
 				if len(a) < 3 {
 					continue
 				}
-				end := a[2]
-				okEnd := false
-				core.Walk(end, func(v ssa.Value) bool {
-					if isStartPlusDecoded(v, start) {
-						okEnd = true
-					}
-					return !okEnd
-				})
+				// the value itself, or (when the builder is called from a local closure) what every caller of
+				// the closure passes in that position
+				okEnd := true
+				for _, end := range argValues(a[2], f) {
+					one := false
+					core.Walk(end, func(v ssa.Value) bool {
+						if isStartPlusDecoded(v, start) {
+							one = true
+						}
+						return !one
+					})
+					okEnd = okEnd && one
+				}
 				if !okEnd {
 					bad, pos = "a replay unit's end offset does not derive from startOffset + decoder offset", s.Pos()
 				}
@@ -401,7 +406,7 @@ func ruleBulkFraming(w *core.World, r *core.Report) {
 					}
 				}
 				for _, fct := range p.Conds {
-					c, ok := core.AsCmp(fct.Cond, fct.Val)
+					c, ok := core.FactCmp(fct)
 					if !ok || c.Op != token.EQL {
 						continue
 					}
